@@ -55,7 +55,7 @@ type exCall struct {
 	wait    time.Duration
 	invoked int64
 	at      time.Time
-	op      *vkit.Op                        // blocking styles
+	op      *vkit.Op                         // blocking styles
 	ch      <-chan *bigbuff.ExclusiveOutcome // async styles
 	got     *bigbuff.ExclusiveOutcome
 	done    bool
